@@ -27,6 +27,7 @@ def obligations(tier):
                 kws.append(dict(period=p, input_value="high"))
             if name == "EMA":
                 kws.append(dict(period=p, smoothing=3.0))
+                kws.append(dict(period=p, smoothing=p + 2.5))       # a = smoothing/(period+1) > 1: still the documented recurrence
             for kw in kws:
                 obs.append(Ob(f"{name}({','.join(f'{k}={v}' for k, v in kw.items())})/price/n={n}", dict(spec=["ind", name, kw], n=n, posvol=(name == "VWMA")), DEF, weight=n, budget_s=600))
             if name != "VWMA":
@@ -136,6 +137,8 @@ def run(ctx, P):
     p = P["spec"][2]["period"]
     if name == "HMA":
         return
+    if name == "EMA" and P["spec"][2].get("smoothing", 2.0) > p + 1:
+        return      # a = smoothing/(period+1) > 1 extrapolates beyond its inputs by definition: only the recurrence is claimed
     inp = x if x is not None else [getattr(c, P["spec"][2].get("input_value", "close")) for c in cs]
     for i, g in enumerate(got):
         if g is None:
